@@ -268,6 +268,18 @@ func runProbes() probeResults {
 			// and the validated value is the default's value with the write applied to the COPY
 			ok = ok && len(a2) == 1 && a2[0].Geo.Tags[0] == "MUTATED" && len(a1) == 1 && *a1[0] == 99
 		}
+		// an EMPTY inner slice with spare capacity still owns memory: appending through the validated value must
+		// not write into the default's backing array
+		buf := make([]string, 0, 4)
+		d6 := [][]string{buf}
+		s6 := z.Slice(z.Slice(z.String())).Default(d6).PostTransform(func(ptr any, ctx z.Ctx) error {
+			v := ptr.(*[][]string)
+			(*v)[0] = append((*v)[0], "appended")
+			return nil
+		})
+		var a6, b6 [][]string
+		ok = ok && noPanic(func() { s6.Validate(&a6); s6.Validate(&b6) })
+		ok = ok && buf[:1][0] == "" && len(a6) == 1 && len(a6[0]) == 1 && len(b6) == 1 && len(b6[0]) == 1
 		r.SliceDefaultDeep = r.SliceDefaultDeep && ok
 	}
 	return r
